@@ -108,11 +108,13 @@ func genGram(t *rapid.T) GramCase {
 			if rapid.IntRange(0, 6).Draw(t, "emptylog") == 0 {
 				log = ""
 			}
+			// inputs that deliver records without their line break (http, kafka, socket) use this decoder too
+			eol := rapid.SampledFrom([]string{"\n", "\n", ""}).Draw(t, "eol")
 			want := log
 			if tag == "F" {
-				want = log + "\n" // a full line keeps its line break (cri_test.go: TestCRIFull)
+				want = log + eol // a full line keeps its line break (cri_test.go: TestCRIFull)
 			}
-			return GLine{Text: tm + " " + st + " " + tag + " " + log + "\n", Fields: map[string]string{"time": tm, "stream": st, "log": want}}
+			return GLine{Text: tm + " " + st + " " + tag + " " + log + eol, Fields: map[string]string{"time": tm, "stream": st, "log": want}}
 		}
 	case "nginx_error":
 		mk = func(i int) GLine {
